@@ -28,7 +28,7 @@ import (
 func init() { units["c07recvglue"] = runC07RecvGlue }
 
 type c07rgStats struct {
-	cases, pkts, dups, dupEvents, errs, zeroRTTClient, droppedInit int
+	cases, pkts, dups, dupEvents, errs, zeroRTTClient, droppedInit, timerChecks int
 	byLevel                                                        [5]int
 }
 
@@ -227,6 +227,7 @@ func runC07RecvGlue(w *bufio.Writer, seed uint64, n int, _ []string) {
 			}
 		}
 	}
+	c07rgTimer(w, st)
 	for i := 0; i < n; i++ {
 		c07rgOne(w, r.Fork(), i%2 == 0, i%4 < 2, st, nil)
 	}
@@ -235,4 +236,45 @@ func runC07RecvGlue(w *bufio.Writer, seed uint64, n int, _ []string) {
 	for l := 1; l <= 4; l++ {
 		fmt.Fprintf(w, "DIST\tpackets-level-%d\t%d\n", l, st.byLevel[l])
 	}
+}
+
+// c07rgTimer (fixed, every seed): a lone ack-eliciting 1-RTT packet arms the ACK alarm; the REAL
+// maybeResetTimer must arm the connection timer no later than that alarm whenever the run loop
+// may still send ACKs: not blocked, and congestion limited (send mode SendAck). C07_ack_leaves_by_deadline
+// states exactly this for the model of maybeResetTimer. Hard-blocked is reported for information.
+func c07rgTimer(w *bufio.Writer, st *c07rgStats) {
+	for _, client := range []bool{false, true} {
+		v, err := quic.NewVerifC07RG(client, false)
+		if err != nil {
+			fmt.Fprintf(w, "MONFAIL\tc07recvglue/panic\tcannot construct the connection: %v\t-\n", err)
+			return
+		}
+		now := v.MonoNow()
+		res := v.Packet(4, 0, 1, now, []int{0})
+		s := v.Snapshot()
+		desc := fmt.Sprintf("client=%v lone ack-eliciting 1-RTT packet 0 at %d: processed=%v ackQueued=%v alarm=now+%dns", client, now, res.Processed, s.AckQueued, s.Alarm-now)
+		if !res.Processed || s.AckQueued || s.Alarm == 0 {
+			fmt.Fprintf(w, "MONFAIL\tc07recvglue/timer-scenario\tthe lone packet did not arm the ACK alarm\t%s\n", desc)
+			v.Shutdown()
+			continue
+		}
+		for _, mode := range []int{quic.VerifC07BlockNone, quic.VerifC07BlockCongestionLimited, quic.VerifC07BlockHard} {
+			ahead, ok := v.ArmTimer(mode)
+			alarmAhead := s.Alarm - v.MonoNow()
+			if !ok {
+				fmt.Fprintf(w, "INFO\tc07recvglue: connection timer not readable (runtime layout), timer check skipped\n")
+				break
+			}
+			st.timerChecks++
+			if mode == quic.VerifC07BlockHard {
+				fmt.Fprintf(w, "INFO\tc07recvglue timer, hard-blocked: armed %d ms ahead, ACK alarm %d ms ahead (no ACK can be sent)\n", ahead/1000000, alarmAhead/1000000)
+				continue
+			}
+			if ahead > alarmAhead+2000000 {
+				fmt.Fprintf(w, "MONFAIL\tc07recvglue/timer-misses-ack-alarm\tblock mode %d: maybeResetTimer armed the connection timer %d ms ahead although the ACK alarm is due in %d ms (max_ack_delay after the arrival of an unacknowledged ack-eliciting packet)\t%s; maybeResetTimer() with c.blocked=%d\n", mode, ahead/1000000, alarmAhead/1000000, desc, mode)
+			}
+		}
+		v.Shutdown()
+	}
+	fmt.Fprintf(w, "DIST\ttimer-checks\t%d\n", st.timerChecks)
 }
